@@ -123,12 +123,13 @@ class ScheduledFiniteThrust(ContinuousStateChangeEvent, metaclass=ABCMeta):
         See Also:
             :meth:`.ContinuousStateChangeEvent.__call__()`
         """
-        _ival = self.start_time - time
-        _fval = self.end_time - time
-        if fpe_equals(_ival, 0.0) or fpe_equals(_fval, 0.0):
+        # [NOTE]: While thrusting, the next zero crossing that must interrupt integration is the end of the thrust,
+        #   otherwise it is the start. Only the root of the current phase is reported: an exact zero at the *other* end
+        #   (e.g. an end time that coincides with the end of the propagation) would hide the start inside the same step.
+        _val = (self.end_time if self.active else self.start_time) - time
+        if fpe_equals(_val, 0.0):
             return 0.0
-        # [NOTE]: While thrusting, the next zero crossing that must interrupt integration is the end of the thrust
-        return _fval if self.active else _ival
+        return _val
 
     def __eq__(self, other: ScheduledFiniteThrust):
         """Check for equality between maneuver events.
